@@ -1,5 +1,6 @@
 import Robotools.Props.C03
 import Robotools.Props.C01Dist
+import Robotools.Proofs.OrderOK
 #print axioms Robotools.C03.step_safe
 #print axioms Robotools.C03.step_cfg
 #print axioms Robotools.C03.step_wf
@@ -24,3 +25,8 @@ import Robotools.Props.C01Dist
 #print axioms Robotools.Dist.compileRD_cases
 #print axioms Robotools.Dist.posInj_evo
 #print axioms Robotools.Dist.nodup_pos
+#print axioms Robotools.OrderOK.compileAspirate_order
+#print axioms Robotools.OrderOK.compileDispense_order
+#print axioms Robotools.OrderOK.compileDistribute_order
+#print axioms Robotools.OrderOK.compileEvoAspirate_order
+#print axioms Robotools.OrderOK.compileEvoDispense_order
